@@ -16,4 +16,21 @@ for m in C.MODULES:
         continue
     with C.Lock("lean"):
         C.regen_consts(m, b)
+# property-specific regenerated facts (Hy/Gen/*.lean other than the constants): run every
+# property's gen_hooks so that `lake build Hy.Props.Cxx` in setup finds its Gen imports
+import glob  # noqa: E402
+import importlib  # noqa: E402
+seen = set()
+for f in sorted(glob.glob(os.path.join(os.path.dirname(os.path.abspath(__file__)), "hv", "props", "C*.py"))):
+    try:
+        m = importlib.import_module("hv.props." + os.path.basename(f)[:-3])
+        for hook in m.CFG.get("gen_hooks", []):
+            if hook.__name__ in seen:
+                continue
+            seen.add(hook.__name__)
+            with C.Lock("lean"):
+                hook()
+    except Exception as e:  # noqa
+        print("warm: gen hook of %s failed: %r" % (os.path.basename(f), e))
+        ok = False
 sys.exit(0 if ok else 1)
